@@ -178,6 +178,18 @@ def value_for(r, ref, req, long_strings=0.0):
         return [r.random() < 0.5 for _ in range(cnt + extra)]
     if a["bitmember"] is not None or req.get("bit") is not None:
         return r.random() < 0.5
+    if r.random() < 0.04 and a["type"] != "BOOL":
+        # the value given as raw bytes of exactly the addressed size
+        n = cnt if cnt is not None else 1
+        cons = []
+        for k in range(n):
+            ref.constraints_for_value(a["type"], k * ref.esize(a["type"]), gen_value(r, ref, a["type"]), cons)
+        buf = bytearray(n * ref.esize(a["type"]))
+        for off, data, mask in cons:
+            for j, byte in enumerate(data):
+                m = mask[j] if mask is not None else 0xFF
+                buf[off + j] = (buf[off + j] & ~m & 0xFF) | (byte & m)
+        return bytes(buf)
     if cnt is not None and cnt > 1:
         extra = r.choice((0, 0, 0, 1, 3))
         return [gen_value(r, ref, a["type"], long_strings) for _ in range(cnt + extra)]
